@@ -34,25 +34,25 @@ def run(ctx):
     if r.returncode != 0: raise Broken('translator validation failed: ' + r.stdout[-500:])
     ctx.validation.append(dict(kernels=[x for x in ROOTS if 'setup' not in x], result=r.stdout.strip()))
     thorough = ctx.tier == 'thorough'
-    nt = 8
+    nt = 8; nts = 4 if not thorough else 6
     G = VERIF + '/harness/C12_gt.c'
     hs = []
-    hs.append(Harness('C12_table_unsigned', G, defines=defs + T + ['KIND=0', 'NT=%d' % nt], unwind=nt + 2, timeout=600, functions=GTF,
+    hs.append(Harness('C12_table_unsigned', G, defines=defs + T + ['KIND=0', 'NT=%d' % nt], unwind=6, unwindset=['main.0:%d' % (nt + 2), 'main.1:%d' % (nt + 2), 'main.2:%d' % (nt + 2)], timeout=600, functions=GTF,
                       bounds='any strictly ascending table of n <= %d unsigned keys with arbitrary values, any probe key, any index for at()' % nt, desc='field-table lookups == linear membership scan'))
-    hs.append(Harness('C12_table_string', G, defines=defs + T + ['KIND=1', 'NT=%d' % nt], unwind=nt + 2, timeout=600, functions=GTF, stubs=['strcmp := ISO C (models/base.c)'],
-                      bounds='any strcmp-ascending table of n <= %d strings of <= 2 arbitrary bytes, any probe string of <= 2 bytes' % nt, desc='message-table lookups == linear membership scan'))
-    hs.append(Harness('C12_table_find_ref', G, defines=defs + TC + ['KIND=2', 'NT=%d' % nt], unwind=nt + 2, timeout=600, functions=GTF + ['FIX8::GeneratedTable<unsigned,V>::find_ref'],
+    hs.append(Harness('C12_table_string', G, defines=defs + T + ['KIND=1', 'NT=%d' % nts], unwind=6, unwindset=['main.0:%d' % (nts + 2), 'main.1:%d' % (nts + 2), 'main.2:%d' % (nts + 2)], timeout=900, functions=GTF, stubs=['strcmp := ISO C (models/base.c)'],
+                      bounds='any strcmp-ascending table of n <= %d strings of <= 2 arbitrary bytes, any probe string of <= 2 bytes' % nts, desc='message-table lookups == linear membership scan'))
+    hs.append(Harness('C12_table_find_ref', G, defines=defs + TC + ['KIND=2', 'NT=%d' % nt], unwind=6, unwindset=['main.0:%d' % (nt + 2), 'main.1:%d' % (nt + 2), 'main.2:%d' % (nt + 2)], timeout=600, functions=GTF + ['FIX8::GeneratedTable<unsigned,V>::find_ref'],
                       stubs=['InvalidMetadata<unsigned>::InvalidMetadata(key) := records the key (message formatting is not the subject)', 'exception runtime: models/c12_exc.c (pending flag + thrown typeinfo)'],
                       bounds='as C12_table_unsigned', desc='find_ref returns the entry or throws InvalidMetadata'))
     S = VERIF + '/harness/C12_set.c'
-    ns = 4 if not thorough else 6
+    ns = 3 if not thorough else 4
     for st, nm, fn in ((0, 'generic', SETF), (1, 'presence', PSF)):
         for op, onm in ((0, 'insert'), (1, 'find'), (2, 'clear'), (4, 'ctor')) + (((3, 'insert_range'),) if st == 1 else ()):
-            hs.append(Harness('C12_set_%s_%s' % (nm, onm), S, defines=defs + T + ['SET=%d' % st, 'OP=%d' % op, 'NS=%d' % ns], unwind=2 * ns + 4, timeout=900, functions=fn, stubs=[NEWSTUB],
+            hs.append(Harness('C12_set_%s_%s' % (nm, onm), S, defines=defs + T + ['SET=%d' % st, 'OP=%d' % op, 'NS=%d' % ns], unwind=ns + 2, unwindset=['x__Znam.0:%d' % (2 * ns + 5)], timeout=900 if not thorough else 2400, functions=fn, stubs=[NEWSTUB],
                               bounds='any state with size <= reserved size <= %d, reserved size >= 1, strictly ascending keys (all 16-bit values), reserve percentage 0..100, array allocated or (empty set) still deferred; any key' % ns,
                               desc='one step from any state satisfying the representation invariant'))
-    hs.append(Harness('C12_hash_array', VERIF + '/harness/C12_hash.c', defines=defs + T + ['NT=%d' % nt, 'TAGMAX=%d' % (64 if not thorough else 128)], unwind=(66 if not thorough else 130), timeout=900, functions=PSF, stubs=[NEWSTUB],
-                      bounds='any strictly ascending trait table of 1 <= n <= %d tags below %d, every key 0..65535, arbitrary previous contents of the set object' % (nt, 64 if not thorough else 128),
+    hs.append(Harness('C12_hash_array', VERIF + '/harness/C12_hash.c', defines=defs + T + ['NT=%d' % (4 if not thorough else 8), 'TAGMAX=%d' % (32 if not thorough else 64)], unwind=10, unwindset=['x__Znam.0:%d' % (34 if not thorough else 66), 'x__Znam.1:20'], timeout=900 if not thorough else 2400, functions=PSF, stubs=[NEWSTUB],
+                      bounds='any strictly ascending trait table of 1 <= n <= %d tags below %d, every key 0..65535, arbitrary previous contents of the set object' % (4 if not thorough else 8, 32 if not thorough else 64),
                       desc='hash array contents, lookups through it, constructed state, copy'))
     for h in hs:
         h.drop_checks = ['--pointer-overflow-check']   # clang -O1 speculates address computations ahead of a select (idx < n ? tab + idx : 0); dereferences stay checked
